@@ -213,6 +213,12 @@ def check_box(res, a, tname=None):
             _V(res, 'center_wrong', case, f'center {c} expected {(float(cy), float(cx))}',
                [float(cy), float(cx)], repr(c))
         res.nontriv(('box', a))
+    # empty or not: the centre is the midpoint of the extent (for a non-empty box that is the mean pixel index)
+    ok, c = _call(res, lambda: A.center)
+    mid = (Fraction(2 * a[2] + 2 * a[3] - 2, 4), Fraction(2 * a[0] + 2 * a[1] - 2, 4))
+    if not ok or (Fraction(c[0]), Fraction(c[1])) != mid:
+        _V(res, 'center_wrong', case, f'center {c} is not the midpoint {(float(mid[0]), float(mid[1]))} of the extent {exp} '
+           f'(box {a}, {"empty" if nx == 0 or ny == 0 else "non-empty"})', [float(mid[0]), float(mid[1])], repr(c))
     ok, r = _call(res, lambda: (A == _mk(a), A == A))
     if not ok or r != (True, True):
         _V(res, 'eq_wrong', case, f'box not equal to itself/copy: {r}')
